@@ -5,6 +5,7 @@ import (
 	"fmt"
 	"os"
 	"os/exec"
+	"strconv"
 	"strings"
 	"sync"
 
@@ -37,6 +38,9 @@ func raceChildMain() {
 				fmt.Printf("@case %s/%s/P=%v\n", cc.name, cfg, withP)
 				e := newEnv(cc.envKind, withP)
 				threads := 4
+				if n, _ := strconv.Atoi(os.Getenv("C10_RACE_THREADS")); n > 0 {
+					threads = n
+				}
 				objs := make([]interface{}, threads)
 				objs[0] = cc.build(e, cfg)
 				for t := 1; t < threads; t++ {
@@ -83,7 +87,11 @@ func racePassScenario() engine.Scenario {
 			return
 		}
 		r := exec.Command(bin)
-		r.Env = append(os.Environ(), "C10_RACE_CHILD=1", "GORACE=halt_on_error=0 exitcode=66", "GOMAXPROCS=8")
+		threads := 4
+		if c.Tier == "thorough" {
+			threads = 16 // the upper end of the property's quantifier (2..16 goroutines)
+		}
+		r.Env = append(os.Environ(), "C10_RACE_CHILD=1", "GORACE=halt_on_error=0 exitcode=66", "GOMAXPROCS=16", fmt.Sprint("C10_RACE_THREADS=", threads))
 		var out bytes.Buffer
 		r.Stdout, r.Stderr = &out, &out
 		err := r.Run()
@@ -91,7 +99,7 @@ func racePassScenario() engine.Scenario {
 		cases := strings.Count(s, "@case ")
 		c.Count(cases)
 		c.Cover("racepass", "ran")
-		c.Note("%d (case, config, P) combinations x 4 goroutines x 3 repetitions of every operation; supporting evidence only (sampling of schedules)", cases)
+		c.Note("%d (case, config, P) combinations x %d goroutines x 3 repetitions of every operation; supporting evidence only (sampling of schedules)", cases, threads)
 		if strings.Contains(s, "WARNING: DATA RACE") {
 			// attribute to the case being run when the first report appeared
 			idx := strings.Index(s, "WARNING: DATA RACE")
@@ -109,7 +117,7 @@ func racePassScenario() engine.Scenario {
 			if len(rep) > 1500 {
 				rep = rep[:1500]
 			}
-			c.Fail("C10/"+name+"/race-detector", "data race reported by the Go race detector while %s was used from 4 goroutines (each on its own copy):\n%s", last, rep)
+			c.Fail("C10/"+name+"/race-detector", "data race reported by the Go race detector while %s was used from %d goroutines (each on its own copy):\n%s", last, threads, rep)
 			return
 		}
 		if err != nil || !strings.Contains(s, "@done") {
